@@ -69,6 +69,16 @@ Lemma parameter_named_like_function_refuted :
   get_call_target (fun _ => false) after_params "helper" = Some (mkSym "helper" KFunc)
   /\ get_call_target (fun _ => false) after_params "x" = Some (mkSym "x" KName).
 Proof. split; reflexivity. Qed.
+(* REFUTED (finding KF_C08_2): the target depends on the callee only through its name without ANY call brackets, so
+   the call on a call result helper(x)(y) - spelled "helper()()" - gets helper itself as target and is expanded *)
+Lemma target_depends_only_on_the_unbracketed_name :
+  forall mexists c a b, without_call_brackets a = without_call_brackets b ->
+    get_call_target mexists c a = get_call_target mexists c b.
+Proof. intros mexists c a b H. unfold get_call_target. rewrite H. reflexivity. Qed.
+Lemma call_on_call_result_targets_the_function_refuted :
+  without_call_brackets "helper()()" = without_call_brackets "helper"
+  /\ get_call_target (fun _ => false) [root_ex] "helper()()" = Some (mkSym "helper" KFunc).
+Proof. split; reflexivity. Qed.
 (* with is_argument=True the parameter would shadow *)
 Lemma is_argument_add_would_shadow :
   get_call_target (fun _ => false) (ctx_add (ctx_push [root_ex]) (mkSym "helper" KName) true) "helper" = Some (mkSym "helper" KName).
